@@ -17,5 +17,5 @@ SL_Links == SeqsUpTo(Links({"S"}, {"S", "X"}, {"S"}, {c_a}, {<<>>}, {-1}, {-1}),
 SH_Pols  == {<<>>, <<Acc({0, 1})>>, <<Acc({1})>>, <<Acc({0})>>, <<Acc({0, 1, 2, 3})>>, <<Acc({1, 2}), Acc({0, 1})>>}
 SH_Inv   == Invs({"S"}, {"S"}, {None}, {c_a}, {0, 1, 2}, {-1}, {"none"}, {0})
 SH_Links == SeqsUpTo(Links({"S"}, {"S"}, {"S"}, {c_a}, SH_Pols, {-1}, {-1}), 2)
-SH_Hooks == {"none", "id", "c0", "c1", "c2", "empty"}
+SH_Hooks == {"none", "id", "add", "c0", "c1", "c2", "empty"}
 =============================================================================
